@@ -40,6 +40,11 @@ def mutations(root):
     return out
 
 
+def safety_parents(root):
+    import safety
+    return safety.parents(root)
+
+
 def size_source_rule(F, rep):
     for fn in ("io::slippi::de::parse_event", "io::slippi::de::parse_game_start"):
         d = events.payload_buffer(F, fn)
@@ -47,8 +52,11 @@ def size_source_rule(F, rep):
                "%s: the payload buffer must be sized by the file's own table indexed by the raw code and nothing else: %s" % (fn, "; ".join(d["problems"])), sample={"fn": fn, "size": "%s[code]" % d["table"]})
     # the code is converted to Event only after the payload was consumed, tolerating failure
     b = F.body("io::slippi::de::parse_event")
-    conv = [n for n in tir.walk(b["tir"]["value"]) if n.get("k") == "MethodCall" and n["method"] == "ok" and "io::slippi::de::Event" in (n["recv"].get("ty") or "")]
-    rep.ob("size-source.raw-code", len(conv) == 1, "io::slippi::de::parse_event", "raw-code", "the event code must be converted to Event exactly once, tolerating failure (`Event::try_from(code).ok()`)")
+    conv = [n for n in tir.walk(b["tir"]["value"]) if n.get("k") == "Call" and (declared(n) or "").endswith("TryFrom::try_from") and (n.get("ty") or "").startswith("std::result::Result<io::slippi::de::Event,")]
+    # tolerated: the Result is never unwrapped, `?`-propagated or expect()ed
+    par = safety_parents(b["tir"]["value"])
+    hard = [n for n in conv if (par.get(id(n)) or {}).get("k") == "Try" or ((par.get(id(n)) or {}).get("k") == "MethodCall" and par[id(n)]["method"] in ("unwrap", "expect", "unwrap_unchecked"))]
+    rep.ob("size-source.raw-code", len(conv) == 1 and not hard, "io::slippi::de::parse_event", "raw-code", "the event code must be converted to Event exactly once, tolerating failure (`Event::try_from(code).ok()`)")
 
 
 def skip_size_rule(F, rep):
@@ -75,9 +83,10 @@ def unknown_path_rule(F, rep):
     for n in tir.walk(root):
         if n.get("k") == "If" and strip(n["cond"]).get("k") == "LetCond":
             c = strip(n["cond"])
-            if "io::slippi::de::Event" in (c["init"].get("ty") or "") and (c["pat"].get("path") or "").endswith("Some"):
+            if "io::slippi::de::Event" in (c["init"].get("ty") or "") and (c["pat"].get("path") or "").endswith(("Some", "Ok")):
                 region = n
-    rep.ob("unknown.region", region is not None and not region.get("else"), fn, "dispatch", "known events must be handled inside `if let Some(event) = Event::try_from(code).ok()` with no else branch")
+    empty_else = region is not None and (not region.get("else") or (region["else"].get("k") == "Block" and not region["else"].get("stmts") and not region["else"].get("tail")))
+    rep.ob("unknown.region", region is not None and empty_else, fn, "dispatch", "known events must be handled inside `if let Some(event) = Event::try_from(code).ok()` with no else branch")
     if region is None:
         return
     inside = set(id(x) for x in tir.walk(region["then"]))
@@ -147,16 +156,35 @@ def prefix_readers_rule(F, G, rep, R):
         rep.floor("if_more tails in " + fn.split("::")[-1], cnt, floor)
     b = F.body("io::slippi::de::if_more")
     ok = False
+    rname = b["tir"]["params"][0].get("name")
+    fname = b["tir"]["params"][1].get("name")
+
+    def cls(body):
+        """none | some: the arm's Option value, looking through an Ok(..) wrapper placed inside the branch"""
+        body = L.strip_try(body)
+        if body.get("k") == "Call" and (declared(body) or "").endswith("::Ok") and len(body["args"]) == 1:
+            body = L.strip_try(body["args"][0])
+        if (body.get("path") or "").endswith("None") and body.get("k") == "Path":
+            return "none"
+        if (declared(body) or "").endswith("Some") and len(body.get("args", [])) == 1:
+            a = body["args"][0]
+            inner = strip(a["e"]) if a.get("k") == "Try" else None
+            if inner is not None and inner.get("k") == "Call" and inner.get("res") == "local" and inner.get("name") == fname and len(inner["args"]) == 1 and L.local_name(inner["args"][0]) == rname:
+                return "some"
+        return "?"
     for m in tir.walk(b["tir"]["value"]):
-        if m.get("k") == "Match":
-            sc = strip(m["scrut"])
-            if sc.get("k") == "MethodCall" and sc["method"] == "is_empty" and L.local_name(sc["recv"]) == "r":
-                res = {}
-                for a in m["arms"]:
-                    key = a["pat"]["e"].get("v") if a["pat"].get("k") == "Lit" else "_"
-                    body = L.strip_try(a["body"])
-                    res[key] = "none" if (body.get("path") or "").endswith("None") else ("some" if (declared(body) or "").endswith("Some") and "Try" in [x.get("k") for x in tir.walk(body)] else "?")
-                ok = res.get(True) == "none" and (res.get(False) == "some" or res.get("_") == "some")
+        bb = tir.bool_branch(m) if m.get("k") in ("Match", "If") else None
+        if bb is None or bb[2] is None:
+            continue
+        sc = strip(bb[0])
+        t, f = bb[1], bb[2]
+        if sc.get("k") == "Binary" and sc.get("op") in ("Eq", "Gt", "Ne") and tir.lit_int(sc["r"]) == 0 and strip(sc["l"]).get("k") == "MethodCall" and strip(sc["l"])["method"] == "len":
+            # r.len() == 0 / r.len() > 0 / r.len() != 0
+            if sc["op"] != "Eq":
+                t, f = f, t
+            sc = dict(strip(sc["l"]), method="is_empty")
+        if sc.get("k") == "MethodCall" and sc["method"] == "is_empty" and L.local_name(sc["recv"]) == rname:
+            ok = cls(t) == "none" and cls(f) == "some"
     rep.ob("prefix.if_more", ok, "io::slippi::de::if_more", "shape", "if_more must be `present <=> bytes remain` (None when the cursor is empty, Some(f(r)?) otherwise)")
 
 
